@@ -182,6 +182,17 @@ def lift_suggestions():
 
 
 WITNESSES = {
+ "F24-F25-digit-runs-beyond-the-int-str-limit": r'''
+from graphql import build_schema, graphql_sync
+s = build_schema("input I { abc: String } type Query { f(i: I): String }")
+run = "1" * 5000
+r = graphql_sync(s, "{ f(i: {a%s: 1}) f(i: {a%sx: 1}) }" % (run, run))            # F24: natural_comparison_key
+assert r.data is None and r.errors
+r = graphql_sync(s, "query($i: I){ f(i:$i) }", variable_values={"i": {10 ** 5000: 1}})   # F25: unknown key message
+assert r.data is None and r.errors and "unknown field" in r.errors[0].message
+r = graphql_sync(s, "{ k%s: f k%s: __typename }" % (run, run))
+assert r.errors
+''',
  "F20-stream-on-typename-under-a-union": r'''
 from graphql import build_schema, graphql_sync, parse, validate
 s = build_schema("type Dog { n: String } type Cat { n: String } union Pet = Dog | Cat type Query { pet: Pet pets: [Pet] }")
